@@ -28,6 +28,8 @@ PROPS = {
          "checks": {Q: 10000, T: 1600000}, "shards": {Q: 2, T: 16}},
         {"name": "frr-reload", "pkg": "internal/bgp/frr", "run": "^TestVerifC19Reload$", "go": "go1.26.8",
          "checks": {Q: 3000, T: 320000}, "shards": {Q: 2, T: 16}},
+        {"name": "frr-manager", "pkg": "internal/bgp/frr", "run": "^TestVerifC19Manager$", "go": "go1.26.8",
+         "checks": {Q: 4000, T: 400000}, "shards": {Q: 2, T: 16}},
         {"name": "frrk8s-debouncer", "pkg": "internal/k8s/controllers", "run": "^TestVerifC19FRRK8s$", "go": "go1.26.8",
          "checks": {Q: 6000, T: 800000}, "shards": {Q: 2, T: 16}},
     ]},
